@@ -239,6 +239,19 @@ class Check:
             raise Infra("driver %s answered %d lines for %d requests" % (name, len(out), len(lines)))
         return out
 
+    def driver_parallel(self, name, lines, workers=16, timeout=3000):
+        """like driver, for STATELESS drivers only: the requests are split into contiguous chunks answered by
+        concurrent driver processes; the answers come back in request order"""
+        if len(lines) < 4000:
+            return self.driver(name, lines, timeout=timeout)
+        from concurrent.futures import ThreadPoolExecutor
+        n = (len(lines) + workers - 1) // workers
+        chunks = [lines[i:i + n] for i in range(0, len(lines), n)]
+        self.driver(name, chunks[0][:1], timeout=timeout)        # builds the driver once if needed
+        with ThreadPoolExecutor(max_workers=workers) as ex:
+            parts = list(ex.map(lambda c: self.driver(name, c, timeout=timeout), chunks))
+        return [a for part in parts for a in part]
+
     def run_bin(self, exe, args=(), input=None, timeout=3000, env=None):
         p = subprocess.run([exe] + [str(a) for a in args], input=input, capture_output=True, text=True,
                            timeout=timeout, env={**os.environ, **(env or {})})
